@@ -189,3 +189,40 @@ func VerifHarness_LexStepPrefixed() {
 	prog := append([]rune(verifPrefixes[pi]), verifWindow(K)...)
 	verifLexStep(prog)
 }
+
+// Numeric escapes, complete: opener ++ D unconstrained digits of the escape's radix ++ closing quote ++ one more rune.
+// LexStepPrefixed reaches the digits only up to its window; here every digit of a complete escape is a solver variable,
+// so the decoded code point (and the Unicode-scalar boundary cases) is decided for all digit strings of the form.
+var verifEscapeForms = []struct {
+	opener string
+	digits int
+	octal  bool
+	quote  rune
+}{
+	{"\"\\x", 2, false, '"'},
+	{"'\\x", 2, false, '\''},
+	{"\"\\u", 4, false, '"'},
+	{"'a\\u", 4, false, '\''},
+	{"\"\\U00", 6, false, '"'},
+	{"\"\\U", 3, false, '"'}, // too short: must be an error
+	{"\"\\", 3, true, '"'},
+	{"'\\u00e4\\", 3, true, '\''},
+}
+
+func VerifHarness_LexEscapes() {
+	fi := errors.VerifNdIntRange("form", 0, len(verifEscapeForms)-1)
+	f := verifEscapeForms[fi]
+	errors.VerifTag("form", fmt.Sprint(fi))
+	prog := []rune(f.opener)
+	for i := 0; i < f.digits; i++ {
+		r := errors.VerifNdRune(fmt.Sprintf("d%d", i))
+		if f.octal {
+			errors.VerifAssume(vIsOctal(r))
+		} else {
+			errors.VerifAssume(vIsHex(r))
+		}
+		prog = append(prog, r)
+	}
+	prog = append(prog, f.quote, ';')
+	verifLexStep(prog)
+}
